@@ -10,7 +10,7 @@ DEFAULT_PROFILE = dict(
     nodes=(1, 3), procs=(1, 3), rules=(1, 4), acts=(0, 3), record=0.4,
     p_timer=0.35, p_send=0.35, p_local=0.2, p_cancel=0.1, p_once=0.3,
     p_fault=0.2, p_link=0.15, p_crash=0.1, p_mode=0.15, depth=(3, 5), locals=(1, 2),
-    strategies=("dfs", "bfs"), caches=("full", "partial", "disabled"), two_runs=0.2, staged=0.0,
+    strategies=("dfs", "bfs"), caches=("full", "partial", "disabled"), two_runs=0.2, staged=0.0, staged3=0.35,
     collect_always=False, same_timer_name=0.3, identical_msgs=0.3, terminating=False,
     proc_kind="", json_payloads=False,
 )
@@ -175,6 +175,11 @@ def gen_scenario(rng, prof):
     if do_staged:
         lines += [l for l in callbacks() if not l.startswith("cb mode")]
         lines.append(f"runfrom {rng.choice(prof['strategies'])} {rng.choice(prof['caches'])} {preds()}")
+        if rng.random() < prof["staged3"]:
+            # a third stage from the states the second one collected (their traces and depths extend two earlier stages; a node
+            # crashed by the second stage's callback stays crashed with the process states it had)
+            lines += [l for l in callbacks() if not l.startswith("cb mode")]
+            lines.append(f"runfrom {rng.choice(prof['strategies'])} {rng.choice(prof['caches'])} {preds()}")
     if rng.random() < prof["two_runs"]:
         # the same run again on the same ModelChecker (C09), possibly with the other strategy/cache
         cbs = [l for l in lines if l.startswith("cb ")]
@@ -428,7 +433,53 @@ def report_disagreements(v, bad, name, fields=ALL_FIELDS, noids=False, seq=True,
     """Shrink and report disagreements. `judge_impl(lines, impl_out)` (optional) is the property's monitor on
     the implementation's own output: a concrete failure makes the violation a failing input; otherwise the
     violation is reported with `no-failing-input-found` naming the broken correspondence."""
-    for nm, lines, diff in bad[:3]:
+    from .common import run_blocks, VH, STALL_S
+    def impl_only(ls):
+        try:
+            o, _, _ = run_blocks([VH, "mc"], [block("x", ls)], 20)
+        except Exception:
+            return []
+        return o.get("x", [])
+    # prefer the scenarios on which a property monitor fails on the implementation's own output (judged on the unshrunk
+    # scenario: shrinking with respect to the broken correspondence may remove what makes the failure visible)
+    concrete_first, rest = [], []
+    if judge_impl and bad:
+        cand = bad[:40]
+        o, _, _ = run_blocks([VH, "mc"], [block(nm, lines) for nm, lines, _ in cand], STALL_S)
+        for nm, lines, diff in cand:
+            out = o.get(nm, [])
+            msg = None
+            if out and not any("capped" in l or l.endswith("-timeout") for l in out):
+                try:
+                    msg = judge_impl(lines, out)
+                except Exception:
+                    msg = None
+            (concrete_first if msg else rest).append((nm, lines, diff))
+        rest += bad[40:]
+    else:
+        rest = list(bad)
+    for nm, lines, diff in concrete_first[:3]:
+        def mfails(ls):
+            out = impl_only(ls)
+            if not out or any("capped" in l or l.endswith("-timeout") for l in out):
+                return False
+            try:
+                return judge_impl(ls, out) is not None
+            except Exception:
+                return False
+        small = shrink(lines, mfails, keep=lambda l: l.startswith(("node", "run")), budget=120)
+        out = impl_only(small)
+        concrete = judge_impl(small, out) if out else None
+        if concrete is None:
+            small, out = lines, impl_only(lines)
+            concrete = judge_impl(small, out)
+        content = (f"# property {v.pid}: the real model checker deviates from the Lean model ({name})\n"
+                   f"# correspondence broken: {diff}\n"
+                   f"# monitor on the implementation's own output: {concrete}\n"
+                   f"# scenario {nm} (shrunk with respect to the monitor); replay: /verif/check {v.pid} --replay <this file>\n"
+                   + "".join(l + "\n" for l in small))
+        v.violation(f"{name}-{nm}.txt".replace(":", "_"), content, no_input=(concrete is None))
+    for nm, lines, diff in rest[:max(0, 3 - len(concrete_first[:3]))]:
         def fails(ls):
             try:
                 i, m = run_pair("mc", [block("x", ls)], jobs=1, stall=20)
